@@ -138,10 +138,11 @@ theorem encChk_sound {f : Fmt} (hm : StrictMonoTo f) (mode : Mode) (h code : Nat
 
 /-! ### from chunk obligations to every table index -/
 
-theorem encBlockOk_spec {t : Tbl} {b : Nat} (hb : encBlockOk t b = true) (j : Nat) (hj : j < 256) :
-    ∃ code, encLookup t.enc (256 * b + j) = some code ∧ encChk t.fmt t.mode (256 * b + j) code = true := by
-  unfold encBlockOk at hb
-  cases hblk : t.enc[b]? with
+theorem encBlockOkT_spec {enc : Array Nat} {f : Fmt} {mode : Mode} {b : Nat} (hb : encBlockOkT enc f mode b = true)
+    (j : Nat) (hj : j < 256) :
+    ∃ code, encLookup enc (256 * b + j) = some code ∧ encChk f mode (256 * b + j) code = true := by
+  unfold encBlockOkT at hb
+  cases hblk : enc[b]? with
   | none => simp [hblk] at hb
   | some blk =>
     simp only [hblk] at hb
@@ -152,16 +153,21 @@ theorem encBlockOk_spec {t : Tbl} {b : Nat} (hb : encBlockOk t b = true) (j : Na
     have e2 : (256 * b + j) % 256 = j := by omega
     rw [e1, e2, hblk]; rfl
 
-theorem encChunkOk_spec {t : Tbl} {k : Nat} (hk : encChunkOk t k = true) (h : Nat)
-    (hlo : 4096 * k ≤ h) (hhi : h < 4096 * (k + 1)) :
-    ∃ code, encLookup t.enc h = some code ∧ encChk t.fmt t.mode h code = true := by
-  unfold encChunkOk at hk
+theorem encChunkOkT_spec {enc : Array Nat} {f : Fmt} {mode : Mode} {k : Nat} (hk : encChunkOkT enc f mode k = true)
+    (h : Nat) (hlo : 4096 * k ≤ h) (hhi : h < 4096 * (k + 1)) :
+    ∃ code, encLookup enc h = some code ∧ encChk f mode h code = true := by
+  unfold encChunkOkT at hk
   have hb := allBelow_spec hk (h / 256 - 16 * k) (by omega)
   have e : 16 * k + (h / 256 - 16 * k) = h / 256 := by omega
   rw [e] at hb
-  have := encBlockOk_spec hb (h % 256) (by omega)
+  have := encBlockOkT_spec hb (h % 256) (by omega)
   have e2 : 256 * (h / 256) + h % 256 = h := by omega
   rwa [e2] at this
+
+theorem encChunkOk_spec {t : Tbl} {k : Nat} (hk : encChunkOk t k = true) (h : Nat)
+    (hlo : 4096 * k ≤ h) (hhi : h < 4096 * (k + 1)) :
+    ∃ code, encLookup t.enc h = some code ∧ encChk t.fmt t.mode h code = true :=
+  encChunkOkT_spec (enc := t.enc) (f := t.fmt) (mode := t.mode) hk h hlo hhi
 
 /-! ### `struct.pack` versus IEEE conversion: the OverflowError branch -/
 
